@@ -2,6 +2,7 @@
   C05 — grid/profile/scatter place each prediction at the right coordinate.
   All theorems hold for EVERY `predict` (so also asymmetric ones) and every projection.
 -/
+import VerdeModel.Gen.Profile
 import VerdeModel.Model.Gridder
 import VerdeModel.Lemmas.Grid
 import VerdeModel.Lemmas.Coords
@@ -496,5 +497,113 @@ theorem src_grid_rejects (p : Predict) (ncomp : Nat) (h1 : 1 ≤ ncomp) (a : Gri
 example : (gridModel (polyPredict [(0, 2, 1000, 1/8)]) 1
     ⟨some [0, 4, 0, 2], none, some (2, 3), none, .spacing, false, [], none, none, none, none⟩).toOption.map (·.vars)
     = some [("scalars", [[0, 4, 8], [2000, 4009/2, 2009]])] := by decide +kernel
+
+/-! ## `profile_coordinates` as regenerated from the source, trigonometry included (Gen/Profile.lean) -/
+
+theorem norm_mk (dx dy : ℝ) : ‖(⟨dx, dy⟩ : ℂ)‖ = Real.sqrt (dx ^ 2 + dy ^ 2) := by
+  rw [Complex.norm_eq_sqrt_sq_add_sq]
+
+/-- The trigonometry of `profile_coordinates` is exact: `hypot(dx, dy)·cos(arctan2(dy, dx)) = dx` and `…·sin(…) = dy`, also for `dx = dy = 0`. -/
+theorem hypot_cos (dx dy : ℝ) : Real.sqrt (dx ^ 2 + dy ^ 2) * Real.cos (Gen.arctan2 dy dx) = dx := by
+  unfold Gen.arctan2
+  by_cases h : (⟨dx, dy⟩ : ℂ) = 0
+  · have h1 : dx = 0 := by simpa using congrArg Complex.re h
+    have h2 : dy = 0 := by simpa using congrArg Complex.im h
+    subst h1 h2; simp
+  · rw [Complex.cos_arg h, ← norm_mk]
+    have : ‖(⟨dx, dy⟩ : ℂ)‖ ≠ 0 := by simpa using h
+    field_simp
+
+theorem hypot_sin (dx dy : ℝ) : Real.sqrt (dx ^ 2 + dy ^ 2) * Real.sin (Gen.arctan2 dy dx) = dy := by
+  unfold Gen.arctan2
+  by_cases h : (⟨dx, dy⟩ : ℂ) = 0
+  · have h1 : dx = 0 := by simpa using congrArg Complex.re h
+    have h2 : dy = 0 := by simpa using congrArg Complex.im h
+    subst h1 h2; simp
+  · rw [Complex.sin_arg, ← norm_mk]
+    have : ‖(⟨dx, dy⟩ : ℂ)‖ ≠ 0 := by simpa using h
+    field_simp
+/-- The fraction of the way along the profile of sample `t` out of `n`. -/
+noncomputable def fracR (n t : Nat) : ℝ := if n = 1 then 0 else (t : ℝ) / ((n : ℝ) - 1)
+
+theorem linspace_zero (sep : ℝ) (n : Nat) : Gen.linspaceR 0 sep n = (List.range n).map fun t => fracR n t * sep := by
+  unfold Gen.linspaceR fracR
+  apply List.map_congr_left
+  intro k _
+  by_cases h : n = 1
+  · simp [h]
+  · simp only [h, if_false]; ring
+
+/-- **`profile_coordinates` as regenerated from the source, with its square root, arctangent, cosine and sine:** for a positive size the points
+    are `point1 + t/(size−1)·(point2 − point1)`, `t = 0 … size−1` (all equal to `point1` when `size = 1` or the two points coincide), each
+    extra coordinate is constant along the profile, and the distances are `t/(size−1)·|point2 − point1|`. -/
+theorem gen_profile_coordinates_points (p1 p2 : ℝ × ℝ) (size : Int) (hs : 0 < size) (ex : Option (List ℝ)) :
+    Gen.profileCoordinates p1 p2 size ex = .ok (
+      (match ex with
+        | some ex => [(List.range size.toNat).map fun t => p1.1 + fracR size.toNat t * (p2.1 - p1.1),
+                      (List.range size.toNat).map fun t => p1.2 + fracR size.toNat t * (p2.2 - p1.2)]
+                     ++ ex.map fun v => (List.range size.toNat).map fun _ => v
+        | none => [(List.range size.toNat).map fun t => p1.1 + fracR size.toNat t * (p2.1 - p1.1),
+                   (List.range size.toNat).map fun t => p1.2 + fracR size.toNat t * (p2.2 - p1.2)]),
+      (List.range size.toNat).map fun t => fracR size.toNat t * Real.sqrt ((p2.1 - p1.1) ^ 2 + (p2.2 - p1.2) ^ 2)) := by
+  unfold Gen.profileCoordinates
+  have hs' : ¬ size ≤ 0 := by omega
+  simp only [hs', if_false, linspace_zero, List.map_map, Function.comp_def]
+  have hc : ∀ t : Nat, p1.1 + fracR size.toNat t * Real.sqrt ((p2.1 - p1.1) ^ 2 + (p2.2 - p1.2) ^ 2) * Real.cos (Gen.arctan2 (p2.2 - p1.2) (p2.1 - p1.1))
+      = p1.1 + fracR size.toNat t * (p2.1 - p1.1) := by
+    intro t; rw [mul_assoc, hypot_cos]
+  have hsn : ∀ t : Nat, p1.2 + fracR size.toNat t * Real.sqrt ((p2.1 - p1.1) ^ 2 + (p2.2 - p1.2) ^ 2) * Real.sin (Gen.arctan2 (p2.2 - p1.2) (p2.1 - p1.1))
+      = p1.2 + fracR size.toNat t * (p2.2 - p1.2) := by
+    intro t; rw [mul_assoc, hypot_sin]
+  simp only [hc, hsn]
+  cases ex with
+  | none => rfl
+  | some ex => simp [Function.comp_def]
+theorem fracR_cast (n t : Nat) : fracR n t = ((if n = 1 then (0 : Rat) else (t : Rat) / ((n : Rat) - 1) : Rat) : ℝ) := by
+  unfold fracR
+  by_cases h : n = 1
+  · simp [h]
+  · simp [h]
+
+theorem fracR_nonneg (n t : Nat) (hn : 0 < n) : 0 ≤ fracR n t := by
+  unfold fracR
+  by_cases h : n = 1
+  · simp [h]
+  · simp only [h, if_false]
+    apply div_nonneg (Nat.cast_nonneg t)
+    have : (1 : ℝ) ≤ n := by exact_mod_cast hn
+    linarith
+
+/-- **Bridge.**  For rational end points the regenerated `profile_coordinates` returns exactly the model's points (`profilePoints`, in exact
+    arithmetic) and distances whose squares are the model's squared distances, all non-negative — and both refuse a size that is not positive. -/
+theorem gen_profile_coordinates_eq_model (p1 p2 : Rat × Rat) (size : Int) (extra : List Rat) :
+    (size ≤ 0 → profilePoints p1 p2 size = .error .valueError ∧
+        Gen.profileCoordinates ((p1.1 : ℝ), (p1.2 : ℝ)) ((p2.1 : ℝ), (p2.2 : ℝ)) size (some (extra.map fun (v : Rat) => (v : ℝ))) = .error .valueError) ∧
+    (0 < size → ∃ pts ds, profilePoints p1 p2 size = .ok pts ∧
+        Gen.profileCoordinates ((p1.1 : ℝ), (p1.2 : ℝ)) ((p2.1 : ℝ), (p2.2 : ℝ)) size (some (extra.map fun (v : Rat) => (v : ℝ)))
+          = .ok ([pts.map fun (p : Rat × Rat × Rat) => (p.1 : ℝ), pts.map fun (p : Rat × Rat × Rat) => (p.2.1 : ℝ)]
+                  ++ extra.map (fun (v : Rat) => pts.map fun _ => (v : ℝ)), ds) ∧
+        ds.map (fun d => d ^ 2) = pts.map (fun (p : Rat × Rat × Rat) => (p.2.2 : ℝ)) ∧ ∀ d ∈ ds, 0 ≤ d) := by
+  constructor
+  · intro h
+    simp [profilePoints, Gen.profileCoordinates, h]
+  · intro h
+    have hs' : ¬ size ≤ 0 := by omega
+    have hn : 0 < size.toNat := by omega
+    refine ⟨_, (List.range size.toNat).map fun t => fracR size.toNat t * Real.sqrt (((p2.1 : ℝ) - (p1.1 : ℝ)) ^ 2 + ((p2.2 : ℝ) - (p1.2 : ℝ)) ^ 2),
+      by simp only [profilePoints, hs', if_false]; rfl, ?_, ?_, ?_⟩
+    · rw [gen_profile_coordinates_points _ _ size h]
+      simp only [List.map_map, Function.comp_def, fracR_cast]
+      push_cast
+      rfl
+    · simp only [List.map_map, Function.comp_def]
+      apply List.map_congr_left
+      intro t _
+      rw [mul_pow, Real.sq_sqrt (by positivity), fracR_cast]
+      push_cast
+      ring
+    · intro d hd
+      obtain ⟨t, _, rfl⟩ := List.mem_map.mp hd
+      exact mul_nonneg (fracR_nonneg _ _ hn) (Real.sqrt_nonneg _)
 
 end Verde.C05
